@@ -294,6 +294,11 @@ pub struct ServerSpec {
     /// replace the generated config file text entirely (e.g. example.cfg)
     pub raw_text: Option<String>,
     pub stats_limit: Option<i64>,
+    /// the seed exactly as written into the file / environment (unquoted) when it differs from
+    /// `seed_hex` or must not be quoted: a numeric-looking seed written bare, a seed with
+    /// trailing characters
+    #[serde(default)]
+    pub seed_written: Option<String>,
 }
 
 impl ServerSpec {
@@ -319,6 +324,7 @@ impl ServerSpec {
             omit: vec![],
             raw_text: None,
             stats_limit: None,
+            seed_written: None,
         }
     }
 }
@@ -417,7 +423,16 @@ pub enum Action {
     Restart,
     RunClient { argv: Vec<String> },
     ClosedLoop { sock: u32, protos: Vec<P>, count: u32, think_us: u64, timeout_ms: u64 },
-    Flood { sock: u32, proto: P, interval_ns: u64, count: u32 },
+    /// open-loop stream of one datagram (or, for `payload` "mixed", two alternating ones) at a
+    /// fixed rate. `payload`: "valid" (default), "wrong_srv", "garbage", "empty", "short", "mixed"
+    Flood {
+        sock: u32,
+        proto: P,
+        interval_ns: u64,
+        count: u32,
+        #[serde(default)]
+        payload: Option<String>,
+    },
     StartRefServer(RefServerSpec),
 }
 
